@@ -251,6 +251,7 @@ def recipe_for_hint(hint, depth=0, dates=True, objects=True):
 
 
 NONE_FOR_REQUIRED = [True]  # module switch: occasionally pass None for a required top-level field
+SHADOWING = ["json", "yaml", "dict", "copy", "cast", "merge_with", "from_partial", "parse_obj", "Config", "Plugin", "Fields"]
 EXTRAS = [True]  # module switch: generate undeclared extra fields for Extra.allow models
 
 
@@ -323,9 +324,21 @@ def model_recipe(cls, depth=0, dates=True, objects=True, required_only=False):
     if name == "Organization" and "id_" in vnames:
         base = base.map(lambda d: dict(d, **({"@id": "https://ror.org/02nv7yv05"} if "@id" in d else {})))
     if EXTRAS[0] and getattr(cls.__config__, "extra", None) is Extra.allow and depth <= 1:
-        return st.builds(lambda d, e: dict(d, **e), base,
+        def odd(d, e):
+            if e.get("$both"):  # a field given by its alias and by its name at once (the second one not even valid)
+                e = {"id_": e["$both"]} if "@id" in d else {}
+            return dict(d, **e)
+
+        return st.builds(odd, base,
                          st.one_of(st.just({}), st.just({}), st.fixed_dictionaries({"xExtra": json_any}),
-                                   st.fixed_dictionaries({"_comment": st.sampled_from(["keep me", "", 0])})))
+                                   st.fixed_dictionaries({"_comment": st.sampled_from(["keep me", "", 0])}),
+                                   st.just({}), st.just({}), st.fixed_dictionaries({"xExtra": json_any}),
+                                   st.one_of(  # (one branch of nine: these are expected to be refused at construction)
+                                       # names of methods / attributes of the model classes
+                                       st.builds(lambda k, v: {k: v}, st.sampled_from(SHADOWING), st.one_of(json_any, st.just({"a": 1}))),
+                                       # values JSON has no notation for
+                                       st.sampled_from([{"xExtra": float("nan")}, {"xExtra": [0.5, float("inf")]}, {"xExtra": {"deep": [float("-inf")]}}]),
+                                       st.sampled_from([{"$both": 42}, {"$both": ["not", "a", "string"]}, {"$both": "other-id"}]))))
     return base
 
 
